@@ -2,34 +2,103 @@
   C19 — Watch coverage and continuity under reconnects, 410s, pauses and cluster changes.
   Property theorems only. `run init as` ranges over EVERY script `as : List Act` of the adversary
   (object changes, deliveries, bookmarks, EOF / connection errors / timeouts, in-stream and HTTP 410,
-  request failures, unknown ERROR, garbage, compaction, pause / notice / resume / unblock timing);
-  `runHist empty hist` over EVERY history of revised insights. No bound on lengths or versions.
+  request failures and re-sent attempts, unknown ERROR, garbage, compaction, pause / notice / resume /
+  unblock timing); `runEvs empty evs` over EVERY history of revised insights and of watcher tasks dying on
+  their own; `Orch.run (Orch.init true) ls` over EVERY interleaving of observer revisions, task deaths
+  and the orchestrator's segments. No bound on lengths or versions.
+  Statement vocabulary: `Covered`, `viewOf`, `stateAt`, `Quiet`, `recover`, `resumeOK`, `oldestReq`,
+  `reqCount`, `attemptCount` (Model/C19_Watch); `Target`, `Live`, `remaining` (Model/C19_Ensemble);
+  `Quiescent` (Model/C19_Orchestrator); `RelistsAfter`, `Clusterwide`, `Namespaced`, `ScopeStable` (here).
 -/
-import Kopf.Lemmas.C19_Watch
+import Kopf.Lemmas.C19_Progress
 import Kopf.Lemmas.C19_Ensemble
 import Kopf.Lemmas.C19_Orchestrator
 namespace Kopf.C19
 
 /-! ## Within one watch -/
 
-/-- **No change is skipped (invariant).** Whatever the adversary did: the resume point never passes
-    the server (`since ≤ srv`), and every stored version up to `since` has reached the consumer — as a
-    watch event, or through a listing made at or after it. Versions above `since` are the ones a
-    `watch since` will still be sent (`deliver_in_order`) or a re-list will cover
-    (`relist_covers_everything`). -/
+/-- **The consumer's knowledge is the server's state at `since`** — at every moment, for every object,
+    whatever the adversary did. "Knowledge" = the last thing the consumer was handed about the object:
+    a watch event, or its presence/absence in the latest completed listing (`viewOf`); the server's state
+    at version `since` = the latest stored version not above `since`, if it is not a deletion
+    (`stateAt`). So nothing up to `since` is missing or stale, and `since` never passes the server. -/
+theorem consumer_view_is_server_state (as : List Act) (k : Nat) :
+    let w := run init as
+    viewOf w.outs k = stateAt w.log w.since k ∧ w.since ≤ w.srv :=
+  ⟨(vinv_run as inv_init vinv_init).view k, (inv_run inv_init as).since_le⟩
+
+/-- **No change is skipped (invariant, per stored version).** Every stored version up to `since` has
+    reached the consumer — as a watch event, or through a listing made at or after it (what such a
+    listing hands over: `listing_yields_live`; what it means for the consumer's knowledge:
+    `consumer_view_is_server_state`). Versions above `since` are the ones a `watch since` will still be
+    sent (`deliver_in_order`) or a re-list will cover. -/
 theorem no_skip_inv (as : List Act) :
     let w := run init as
     w.listRv ≤ w.since ∧ w.since ≤ w.srv ∧ ∀ e ∈ w.log, e.rv ≤ w.since → Covered w e := by
   have h := inv_run inv_init as
   exact ⟨h.list_le, h.since_le, h.cover⟩
 
-/-- **No change is lost (quiescence).** Whenever the stream is open and the server has nothing more
-    to send, every change ever made has reached the consumer (event, or a listing at/after it). -/
+/-- **No change is lost (quiescence).** Whenever the stream is open and the server has nothing more to
+    send, the consumer knows the CURRENT state of every object (its final version, or that it is gone),
+    and every version ever stored was delivered as an event or covered by a listing.
+    (Safety at quiescence; that quiescence can always be reached: `quiescence_reachable`.) -/
 theorem no_skip (as : List Act) :
     let w := run init as
-    w.phase = .streaming → nextEntry w.log w.since = none → ∀ e ∈ w.log, Covered w e := by
-  intro w _ hn e he
-  exact (inv_run inv_init as).cover e he (nextEntry_none hn e he)
+    w.phase = .streaming → nextEntry w.log w.since = none →
+      (∀ k, viewOf w.outs k = stateAt w.log w.srv k) ∧ ∀ e ∈ w.log, Covered w e := by
+  intro w _ hn
+  have hall := nextEntry_none hn
+  refine ⟨?_, fun e he => (inv_run inv_init as).cover e he (hall e he)⟩
+  intro k
+  rw [(vinv_run as inv_init vinv_init).view k]
+  unfold stateAt
+  rw [filter_le_of_bound hall, filter_le_of_bound (inv_run inv_init as).bound]
+
+example :
+    let w := run init [.wake, .change 1 .added true, .respond, .respond, .change 2 .added true, .change 1 .deleted true,
+                       .deliver, .deliver]
+    w.phase = .streaming ∧ nextEntry w.log w.since = none ∧ viewOf w.outs 1 = none ∧ viewOf w.outs 2 = some 2 := by
+  decide
+
+/-- **What a listing hands over.** When a listing is answered, the consumer gets — before anything
+    else, each exactly once, followed by `LISTED` with the listing's resourceVersion — one item for
+    every object whose latest stored version is not a deletion, carrying that version; nothing for
+    deleted objects; and then (unless a pause was noticed) the watch request from that very version. -/
+theorem listing_yields_live (as : List Act) :
+    let w := run init as
+    w.phase = .listing →
+      ∃ blk, (step w .respond).outs
+              = (if w.pauseSeen then [] else [Out.reqWatch w.srv]) ++ (.listed w.srv :: blk ++ w.outs) ∧
+        blk.Nodup ∧
+        ∀ o, o ∈ blk ↔ ∃ e, lastOf w.log e.key = some e ∧ e.kind ≠ .deleted ∧ o = .item e.key e.rv := by
+  intro w hph
+  refine ⟨itemsBlock w.log, respond_listing_outs w hph, itemsBlock_nodup (inv_run inv_init as).sorted, ?_⟩
+  intro o
+  rw [itemsBlock_mem]
+  constructor
+  · rintro ⟨e, he, rfl⟩
+    have := mem_liveItems.mp he
+    exact ⟨e, this.2.2, this.2.1, rfl⟩
+  · rintro ⟨e, hl, hd, rfl⟩
+    exact ⟨e, mem_liveItems.mpr ⟨(lastOf_mem hl).1, hd, hl⟩, rfl⟩
+
+example : (run init [.wake, .change 1 .added true, .change 2 .added true, .change 1 .modified true,
+    .change 2 .deleted true, .respond]).outs = [.reqWatch 4, .listed 4, .item 1 3, .reqList] := by decide
+
+/-- **The limit of list+watch: a deletion inside a re-list gap is never announced.** The object was
+    handed to the consumer (listed), is deleted while the stream is down (here: after an in-stream 410,
+    before the re-list; the same in a pause or a backoff), and the fresh listing simply does not contain
+    it: the stream is open again, nothing is pending, every version counts as covered, the consumer's
+    knowledge as *defined by `viewOf`* is right (absent) — but no `DELETED` for it was yielded (see
+    `outs`), and none is pending (events come only from `deliver`: `deliver_in_order`). kopf's consumers do not diff a listing against what they hold, so handlers, indices and
+    memories of that object are never told (finding C19-F5). -/
+theorem deleted_in_relist_gap_witness :
+    let w := run init [.wake, .change 1 .added true, .respond, .respond, .err410, .change 1 .deleted true,
+                       .wake, .respond, .respond]
+    w.phase = .streaming ∧ nextEntry w.log w.since = none ∧
+    w.outs = [.reqWatch 2, .listed 2, .reqList, .reqWatch 1, .listed 1, .item 1 1, .reqList] ∧
+    (⟨2, 1, .deleted⟩ : Entry) ∈ w.log ∧ Covered w ⟨2, 1, .deleted⟩ ∧ viewOf w.outs 1 = none := by
+  refine ⟨by decide, by decide, by decide, by decide, Or.inl (by decide), by decide⟩
 
 /-- The next line of an open watch is the *least* version above `since`: it is yielded, becomes
     the new `since`, and nothing between the old and the new `since` exists. -/
@@ -58,38 +127,40 @@ theorem resume_point (as : List Act) : resumeOK (run init as).outs = true :=
 example : resumeOK [.reqWatch 7, .bookmark 7, .event .modified 1 5, .reqWatch 3, .listed 3, .reqList] = true := by decide
 example : resumeOK [.reqWatch 5, .bookmark 7, .event .modified 1 5, .reqWatch 3, .listed 3, .reqList] = false := by decide
 
-/-- **Too old (410) → re-list — both forms.** An ERROR 410 line in the middle of a stream, and the
-    answer to a too-old `since` — whether the server sends it as an in-stream ERROR event or as HTTP 410
-    on the watch request itself (`w.http410` is not constrained) — end the stream without an exception;
-    after the backoff the client lists afresh (unless paused: then it waits, and lists on un-pause —
-    `fresh_list_on_resume`). The listing then covers everything: `relist_covers_everything`. -/
-theorem relist_on_410 (w : World) :
-    (w.phase = .streaming →
-        (step w .err410).phase = .backoff ∧ (step w .err410).outs = w.outs) ∧
-    (w.phase = .connecting → w.since < w.horizon →
-        (step w .respond).phase = .backoff ∧ (step w .respond).outs = w.outs) ∧
-    (w.phase = .backoff → w.paused = false →
-        (step w .wake).phase = .listing ∧ (step w .wake).outs = .reqList :: w.outs) := by
-  refine ⟨?_, ?_, ?_⟩
-  · intro h; simp [step, h, toBackoff]
-  · intro h hs
-    by_cases hp : w.pauseSeen = true <;> by_cases hh : w.http410 = true <;> simp [step, h, hs, hh, hp, toBackoff]
-  · intro h hp; simp [step, h, hp, startListing, emit]
+/-- What "the stream ends without an exception and the next request is a fresh listing" means, for the
+    state `w'` reached from `w`: nothing was yielded or requested, the client sleeps the reconnect backoff,
+    whatever happens afterwards the first request it sends is a list (never a `watch since`), and once the
+    backoff is over and the operator is not paused it does send it. -/
+def RelistsAfter (w w' : World) : Prop :=
+  w'.phase = .backoff ∧ w'.outs = w.outs ∧
+  (∀ as, ∃ new, (run w' as).outs = new ++ w'.outs ∧ ∀ v, oldestReq new ≠ some (.reqWatch v)) ∧
+  (w'.paused = false → (step w' .wake).phase = .listing ∧ (step w' .wake).outs = .reqList :: w'.outs)
 
-/-- A listing covers everything the server holds at that moment: after it nothing is missing. -/
-theorem relist_covers_everything (as : List Act) :
-    let w := run init as
-    w.phase = .listing → ∀ e ∈ (step w .respond).log, Covered (step w .respond) e := by
-  intro w hph e he
-  have h : Inv (step w .respond) := inv_step (inv_run inv_init as) _
-  have hlog : (step w .respond).log = w.log := by
-    simp only [step, hph, rewatch]; split <;> rfl
-  have hl : (step w .respond).listRv = w.srv := by
-    simp only [step, hph, rewatch]; split <;> rfl
-  rw [hlog] at he
-  left
-  rw [hl]
-  exact (inv_run inv_init as).bound e he
+theorem relistsAfter_of_backoff {w w' : World} (hph : w'.phase = .backoff) (ho : w'.outs = w.outs) :
+    RelistsAfter w w' := by
+  refine ⟨hph, ho, ?_, ?_⟩
+  · intro as
+    refine ⟨(run { w' with outs := [] } as).outs, run_outs w' as, ?_⟩
+    intro v
+    have h0 : FirstIsList { w' with outs := [] } := Or.inr ⟨rfl, Or.inr (Or.inl hph)⟩
+    rcases firstIsList_run h0 as with h | ⟨h, _⟩ <;> rw [h] <;> simp
+  · intro hp
+    simp [step, hph, hp, startListing, emit]
+
+/-- **Too old (410) → re-list — both forms, run-level.** An ERROR 410 line in the middle of a stream, and
+    the answer to a too-old `since` — whether the server sends it as an in-stream ERROR event or as HTTP
+    410 on the watch request itself (`w.http410` is not constrained; a noticed pause does not matter
+    either) — end the stream without an exception, and from then on, for every continuation, the first
+    request is a fresh listing (`RelistsAfter`). What that listing hands over: `listing_yields_live`. -/
+theorem relist_on_410 (w : World) :
+    (w.phase = .streaming → RelistsAfter w (step w .err410)) ∧
+    (w.phase = .connecting → w.since < w.horizon → RelistsAfter w (step w .respond)) := by
+  refine ⟨?_, ?_⟩
+  · intro h
+    exact relistsAfter_of_backoff (by simp [step, h, toBackoff]) (by simp [step, h, toBackoff])
+  · intro h hs
+    apply relistsAfter_of_backoff <;>
+      by_cases hp : w.pauseSeen = true <;> by_cases hh : w.http410 = true <;> simp [step, h, hs, hh, hp, toBackoff]
 
 /-- **HTTP 410 never kills the stream.** No request answer `respond` (this is the act that carries the
     HTTP 410) ever makes the client fail: the only exits to `failed` are an unknown ERROR event, a
@@ -111,12 +182,14 @@ example :
                        .wake, .respond]
     w.phase = .connecting ∧ w.outs.head? = some (.reqWatch 1) ∧ Out.item 1 1 ∈ w.outs := by decide
 
-/-- **An unknown ERROR event is never skipped:** it raises out of the stream, at once. -/
+/-- **An unknown ERROR event is never skipped:** it raises out of the stream, at once. (Since kopf
+    9ef1bcb the failed watcher then stops the whole operator: C20 `stream_failure_stops_all`.) -/
 theorem unknown_error_raises (w : World) (h : w.phase = .streaming) :
     (step w .errUnknown).phase = .failed ∧ (step w .errUnknown).outs = .raised .unknownError :: w.outs := by
   simp [step, h, fail, emit]
 
-/-- Once an exception has left `infinite_watch`, nothing is yielded or requested any more. -/
+/-- Once an exception has left `infinite_watch`, nothing is yielded or requested any more (nor is any
+    later change covered: `no_skip` is about open streams; what becomes of the operator is C20's subject). -/
 theorem failed_is_final (w : World) (h : w.phase = .failed) (as : List Act) :
     (run w as).phase = .failed ∧ (run w as).outs = w.outs := by
   induction as generalizing w with
@@ -127,22 +200,43 @@ theorem failed_is_final (w : World) (h : w.phase = .failed) (as : List Act) :
       have := ih _ h1.1
       exact ⟨this.1, by rw [← h1.2]; exact this.2⟩
 
-/-- **While paused nothing is listed or watched.** From the moment the pause has been noticed
-    (`Quiet`: the pause-waiter of the running `streaming_block` is done, or no block is running) and
-    for as long as the toggle stays on, no act whatsoever — responses, failures, stream lines, EOFs,
-    timeouts, the end of the backoff — makes the client send a request. -/
-theorem paused_silent (w : World) (hq : Quiet w) (hp : w.paused = true) (as : List Act)
-    (hres : Act.resume ∉ as) : reqCount (run w as).outs = reqCount w.outs := by
+/-- **While paused nothing is listed or watched — partial.** From the moment the pause has been noticed
+    (`Quiet`) and for as long as the toggle stays on: no act whatsoever makes the client START a request
+    (`reqCount`), and as long as no attempt already in its retry loop is re-sent (`.retry ∉ as` — the exact
+    guard), the API server receives nothing at all (`attemptCount`).
+
+    Full statement wanted by the property: `attemptCount` unchanged without the guard. False of the code:
+    `paused_retry_witness` (finding C19-F2). Not covered either way: a listing already answered is still
+    yielded while paused (its items are not requests), and between `.pause` and `.notice` (the waiter task
+    has not run yet) requests may still go out. -/
+theorem paused_silent_partial (w : World) (hq : Quiet w) (hp : w.paused = true) (as : List Act)
+    (hres : Act.resume ∉ as) :
+    reqCount (run w as).outs = reqCount w.outs ∧
+    (Act.retry ∉ as → attemptCount (run w as).outs = attemptCount w.outs) := by
   induction as generalizing w with
-  | nil => rfl
+  | nil => exact ⟨rfl, fun _ => rfl⟩
   | cons a as ih =>
       have ha : a ≠ .resume := fun h => hres (h ▸ List.mem_cons_self)
       have hrest : Act.resume ∉ as := fun h => hres (List.mem_cons_of_mem _ h)
       obtain ⟨hq', hc⟩ := quiet_step_paused hq hp a
-      show reqCount (run (step w a) as).outs = reqCount w.outs
-      rw [ih _ hq' (paused_step hp ha) hrest, hc]
+      obtain ⟨h1, h2⟩ := ih (step w a) hq' (paused_step hp ha) hrest
+      refine ⟨by show reqCount (run (step w a) as).outs = _; rw [h1, hc], ?_⟩
+      intro hnr
+      have har : a ≠ .retry := fun h => hnr (h ▸ List.mem_cons_self)
+      show attemptCount (run (step w a) as).outs = _
+      rw [h2 (fun h => hnr (List.mem_cons_of_mem _ h)), attemptCount_eq, attemptCount_eq, hc, retryCount_step w har]
 
-/-- The hypothesis of `paused_silent` is met as soon as the pause is noticed, in every phase. -/
+/-- **The guard is needed (C19-F2).** The operator is paused and the pause has been noticed while a
+    listing is outstanding; its attempt fails with a retryable error and `api.request` re-sends it:
+    the API server receives a request while paused. (The same for a watch request: `.retryWatch`.) -/
+theorem paused_retry_witness :
+    let w := run init [.wake, .pause, .notice]
+    Quiet w ∧ w.paused = true ∧ attemptCount (run w [.retry]).outs = attemptCount w.outs + 1 ∧
+    let w2 := run init [.wake, .respond, .drop .eof, .pause, .notice]
+    Quiet w2 ∧ w2.paused = true ∧ (run w2 [.retry]).outs.head? = some (.retryWatch 0) := by
+  refine ⟨Or.inl (by decide), by decide, by decide, Or.inl (by decide), by decide, by decide⟩
+
+/-- The hypothesis of `paused_silent_partial` is met as soon as the pause is noticed, in every phase. -/
 theorem pause_noticed_is_quiet (w : World) (hp : w.paused = true) : Quiet (step w .notice) := by
   unfold Quiet
   cases hph : w.phase <;> simp [step, hp, hph, toBackoff]
@@ -151,9 +245,10 @@ example : let w := run init [.wake, .respond, .respond, .pause, .notice]
     Quiet w ∧ w.paused = true ∧ w.phase = .backoff := by
   refine ⟨Or.inl (by decide), by decide, by decide⟩
 
-/-- **Watching restarts with a fresh listing on resume.** From a quiet state, whatever happens next,
-    among everything observed from then on (`new`) the first request is a list — never a `watch since`
-    an old version. -/
+/-- **Watching restarts with a fresh listing on resume.** From a quiet state (pause noticed, or between
+    two streaming blocks), whatever happens next, among everything observed from then on (`new`) the
+    first request is a list — never a `watch since` an old version. (Safety; that it does restart under a
+    cooperative environment: `quiescence_reachable`.) -/
 theorem fresh_list_on_resume (w : World) (hq : Quiet w) (as : List Act) :
     ∃ new, (run w as).outs = new ++ w.outs ∧ ∀ v, oldestReq new ≠ some (.reqWatch v) := by
   refine ⟨(run { w with outs := [] } as).outs, run_outs w as, ?_⟩
@@ -161,16 +256,43 @@ theorem fresh_list_on_resume (w : World) (hq : Quiet w) (as : List Act) :
   have h0 : FirstIsList { w with outs := [] } := Or.inr ⟨rfl, hq⟩
   rcases firstIsList_run h0 as with h | ⟨h, _⟩ <;> rw [h] <;> simp
 
-/-- `outs` is only a record: no reaction reads it. -/
-theorem outs_is_ghost (w : World) (os : List Out) (a : Act) :
-    step { w with outs := os } a
-      = { step { w with outs := [] } a with outs := (step { w with outs := [] } a).outs ++ os } :=
-  step_ghost w os a
-
-example : oldestReq (run { (run init [.wake, .respond, .respond, .pause, .notice]) with outs := [] }
-    [.wake, .change 1 .added true, .resume, .unblock, .respond]).outs = some .reqList := by decide
 example : (run init [.wake, .respond, .respond, .pause, .notice, .wake, .change 1 .added true, .resume, .unblock, .respond]).outs
     = [.reqWatch 1, .listed 1, .item 1 1, .reqList, .reqWatch 0, .listed 0, .reqList] := by decide
+
+/-- **Quiescence is reachable (possibility).** From every state that has not failed — paused, blocked,
+    in a backoff, mid-request, streaming with a backlog, after any faults — a cooperative environment
+    (`recover`: un-pause, end what is going on, let the backoff pass, answer the listing and the watch
+    request) brings the client to an open stream with nothing pending; there `no_skip` applies: the
+    consumer knows the current state of every object. No fairness is assumed or proved: the adversary may
+    also never cooperate. -/
+theorem quiescence_reachable (as : List Act) :
+    let w := run init as
+    w.phase ≠ .failed →
+      let w' := run w recover
+      w'.phase = .streaming ∧ nextEntry w'.log w'.since = none ∧ w'.paused = false ∧
+      ∀ k, viewOf w'.outs k = stateAt w'.log w'.srv k := by
+  intro w hnf w'
+  have hi : Inv w := inv_run inv_init as
+  have hv : VInv w := vinv_run as inv_init vinv_init
+  have hsplit : w' = run (run w [.resume, .err410, .failReq .tooMany, .unblock, .wake]) [.respond, .respond] := by
+    show run w recover = _
+    exact run_append w [.resume, .err410, .failReq .tooMany, .unblock, .wake] [.respond, .respond]
+  obtain ⟨h1, h2, h3, h4, h5, h6⟩ := recover_to_listing w hnf
+  obtain ⟨g1, g2, g3⟩ := listing_to_streaming _ h1 h2 (by rw [h5, h6]; exact hv.hor)
+    (by rw [h4, h5]; exact hi.bound)
+  rw [← hsplit] at g1 g2 g3
+  refine ⟨g1, g2, by rw [g3, h3], ?_⟩
+  have hrun : w' = run init (as ++ recover) := by
+    show run (run init as) recover = _
+    rw [run_append]
+  have := no_skip (as ++ recover)
+  simp only [] at this
+  rw [← hrun] at this
+  exact (this g1 g2).1
+
+example : let w := run (run init [.wake, .change 1 .added true, .respond, .pause, .notice, .respond, .change 1 .modified true]) recover
+    w.phase = .streaming ∧ viewOf w.outs 1 = some 2 := by decide
+
 
 /-! ## Across watches: the ensemble -/
 
@@ -182,7 +304,10 @@ theorem adjust_keys (e : Ensemble) (ins : Insights) (k : Key) :
     k ∈ (adjust e ins).keys ↔ (Live e k ∧ remaining ins k = true) ∨ Target ins k :=
   adjust_keys_iff
 
-/-- **At most one watch per key**, for every history of revisions and of tasks dying on their own. -/
+/-- **At most one watcher task per key**, for every history of revisions and of tasks dying on their own.
+    (That a replaced task has really ENDED before its successor starts is `await aiotasks.stop(...)` in
+    `terminate_redundancies`, which has no timeout: the model's pass is atomic on that ground — an
+    assumption, exercised by the tie, not a theorem.) -/
 theorem watchers_nodup (evs : List Ev) : (runEvs Ens.empty evs).keys.Nodup :=
   runEvs_nodup (by simp [Ens.empty, Ensemble.keys])
 
@@ -225,8 +350,10 @@ example :
     let e := runEvs Ens.empty [.pass ⟨[⟨"ct", false⟩], [some "a"]⟩, .die ("ct", none), .pass ⟨[⟨"ct", false⟩], [some "a"]⟩]
     e.watchers = [(("ct", none), 1)] ∧ e.dead = [0] := by decide
 
-/-- the operator serves the whole cluster: `insights.namespaces = {None}` at every revision -/
-def Clusterwide (h : List Insights) : Prop := ∀ ins ∈ h, ins.namespaces = [none]
+/-- the operator serves the whole cluster: `insights.namespaces` is `{None}` — or still empty, as in the
+    first revision of every real start-up (`resource_observer` revises the resources before
+    `namespace_observer` has put `None` in) -/
+def Clusterwide (h : List Insights) : Prop := ∀ ins ∈ h, ins.namespaces = [none] ∨ ins.namespaces = []
 /-- the operator serves named namespaces: `None` is never among them -/
 def Namespaced (h : List Insights) : Prop := ∀ ins ∈ h, none ∉ ins.namespaces
 /-- a resource (group, version, plural) does not change its scope during the history -/
@@ -237,12 +364,14 @@ def ScopeStable (h : List Insights) : Prop :=
     resources and namespaces: the watcher keys are `{(r, ns) | r served, ns served}` with `ns := None`
     for cluster-scoped `r` — nothing else, nothing missing (and each once: `watchers_nodup`).
 
-    Full statement wanted by the property: the same without the guard "some namespace is served or no
-    served resource is cluster-scoped". That is false of the code: `terminate_redundancies` always keeps
+    Guards: (1) the operator's mode is fixed: cluster-wide (`{None}`, possibly still empty earlier, `{None}`
+    now) or namespaced (`None` never among the namespaces); (2) a resource keeps its scope (`ScopeStable`);
+    (3) in namespaced mode: some namespace is served or no served resource is cluster-scoped.
+    Full statement wanted by the property: the same without (3). That is false of the code: `terminate_redundancies` always keeps
     namespace `None` (`insights.namespaces | {None}`), see `exactly_one_watch_lingering_witness`. -/
 theorem exactly_one_watch_partial (pre : List Ev) (last : Insights)
     (hscope : ScopeStable (pre.flatMap Ev.insights ++ [last]))
-    (hmode : Clusterwide (pre.flatMap Ev.insights ++ [last]) ∨
+    (hmode : (Clusterwide (pre.flatMap Ev.insights ++ [last]) ∧ last.namespaces = [none]) ∨
       (Namespaced (pre.flatMap Ev.insights ++ [last]) ∧ (last.namespaces ≠ [] ∨ ∀ r ∈ last.watched, r.namespaced = true)))
     (k : Key) :
     k ∈ (runEvs Ens.empty (pre ++ [.pass last])).keys ↔ Target last k := by
@@ -262,8 +391,8 @@ theorem exactly_one_watch_partial (pre : List Ev) (last : Insights)
       · -- cluster-scoped: the key is (name, None); it is a target iff some namespace is served
         have hrn : r.namespaced = false := by rw [← hsc, hnsd]
         have hne : ∃ n, n ∈ last.namespaces := by
-          rcases hmode with hc | ⟨_, hg | hg⟩
-          · exact ⟨none, by rw [hc last hl']; simp⟩
+          rcases hmode with ⟨_, hc⟩ | ⟨_, hg | hg⟩
+          · exact ⟨none, by rw [hc]; simp⟩
           · cases hl : last.namespaces with
             | nil => exact absurd hl hg
             | cons n _ => exact ⟨n, by simp⟩
@@ -278,8 +407,8 @@ theorem exactly_one_watch_partial (pre : List Ev) (last : Insights)
         have hin : n0 ∈ last.namespaces := by
           rcases hns with h | h
           · exact h
-          · rcases hmode with hc | ⟨hn, _⟩
-            · rw [hc last hl', h]; simp
+          · rcases hmode with ⟨_, hc⟩ | ⟨hn, _⟩
+            · rw [hc, h]; simp
             · exact absurd (h ▸ hn0) (hn ins0 hi0')
         refine ⟨r, hrw, n0, hin, ?_⟩
         simp only [dkey, hnsd, hrn, if_true]
@@ -298,6 +427,18 @@ example :
   refine ⟨?_, ?_, by decide, by decide⟩
   · unfold ScopeStable; decide
   · unfold Namespaced; decide
+
+/-- the REAL start-up of a cluster-wide operator: the resources are revised first (no namespace yet, no
+    watcher), then `None` arrives: the guard holds and every kind gets its one cluster-wide watcher -/
+example :
+    let pre : List Ev := [.pass ⟨[⟨"kex", true⟩, ⟨"ct", false⟩], []⟩]
+    let last : Insights := ⟨[⟨"kex", true⟩, ⟨"ct", false⟩], [none]⟩
+    ScopeStable (pre.flatMap Ev.insights ++ [last]) ∧ Clusterwide (pre.flatMap Ev.insights ++ [last]) ∧
+    last.namespaces = [none] ∧
+    (runEvs Ens.empty (pre ++ [.pass last])).keys = [("kex", none), ("ct", none)] := by
+  refine ⟨?_, ?_, rfl, by decide⟩
+  · unfold ScopeStable; decide
+  · unfold Clusterwide; decide
 
 /-- a cluster-wide operator with two namespaced kinds and one cluster-scoped kind, one of them removed and re-added -/
 example : (runHist Ens.empty
@@ -319,78 +460,119 @@ theorem exactly_one_watch_lingering_witness :
   simp at hn
 
 
-/-! ## The orchestrator around `insights.revised`: revisions arriving at any time -/
 
-open Orch in
-/-- **A revision cannot fall into a pass, and never goes unnoticed.** With the pass running under the
-    lock (the code as it is): an observer can revise the insights only while the orchestrator is inside
-    `wait()`, and afterwards the orchestrator is notified — a pass will follow. -/
-theorem revise_wakes (ls : List Orch.Label) (s s' : Orch.State) (ins' : Insights)
-    (hr : Orch.run (Orch.init true) ls = some s) (hs : Orch.step s (.revise ins') = some s') :
-    (s.pc = .waiting ∨ s.pc = .notified) ∧ s'.pc = .notified ∧ s'.ins = ins' := by
-  have hl := (Orch.oinv_run Orch.oinv_init hr).locked
-  simp only [Orch.step] at hs
-  cases hpc : s.pc <;> simp [Orch.lockFree, hpc, hl] at hs <;> subst hs <;> simp [hpc]
+/-! ## The orchestrator around `insights.revised`: revisions and task deaths arriving at any time -/
 
-open Orch in
-/-- A notified orchestrator can always go on: a started pass runs to its end (back to `wait()`). -/
-theorem pass_progress (s : Orch.State) (h : s.pc ≠ .waiting) :
-    ∃ l s', (l = .acquire ∨ l = .termDone ∨ l = .spawnAll) ∧ Orch.step s l = some s' := by
+/-- **A started pass needs at most three more segments of the orchestrator to be back in `wait()`**
+    (enabledness, not fairness: `termDone` is the redundant watchers having stopped — a handler that never
+    returns keeps `aiotasks.stop()`, the pass and the lock of `insights.revised` forever; that is C20's
+    "handlers honour cancellation"). Holds for every state, reachable or not. -/
+theorem pass_progress (s : Orch.State) :
+    ∃ ls, ls.length ≤ 3 ∧ (∀ l ∈ ls, l.isOrch = true) ∧ (Orch.run s ls).map (·.pc) = some .waiting := by
   cases hpc : s.pc with
-  | waiting => exact absurd hpc h
-  | notified => exact ⟨.acquire, { s with pc := .stopping s.ins }, Or.inl rfl, by simp [Orch.step, hpc]⟩
-  | stopping snap => exact ⟨.termDone, { s with ens := terminate s.ens snap, pc := .spawning }, Or.inr (Or.inl rfl), by simp [Orch.step, hpc]⟩
-  | spawning => exact ⟨.spawnAll, { s with ens := spawn s.ens (pairs s.ins), pc := .waiting, hist := s.hist ++ [s.ins] }, Or.inr (Or.inr rfl), by simp [Orch.step, hpc]⟩
+  | waiting => exact ⟨[], by simp, by simp, by simp [Orch.run, hpc]⟩
+  | notified =>
+      exact ⟨[.acquire, .termDone, .spawnAll], by simp, by simp [Orch.Label.isOrch],
+        by simp [Orch.run, Orch.step, hpc]⟩
+  | stopping =>
+      exact ⟨[.termDone, .spawnAll], by simp, by simp [Orch.Label.isOrch], by simp [Orch.run, Orch.step, hpc]⟩
+  | spawning =>
+      exact ⟨[.spawnAll], by simp, by simp [Orch.Label.isOrch], by simp [Orch.run, Orch.step, hpc]⟩
 
-open Orch in
-/-- **No lost wake-up.** For every interleaving of observer revisions and orchestrator segments: whenever
-    the orchestrator is quiescent (in `wait()`, not notified) and anything was ever revised, the ensemble
-    is exactly what `adjust_tasks` over a history of insights ENDING WITH THE CURRENT ONES produces — the
-    latest revision has been applied in full (one snapshot per pass, every snapshot a real revision). -/
+/-- **No lost wake-up.** For every interleaving of observer revisions, task deaths and orchestrator
+    segments (the pass under the lock — the code as it is): whenever the orchestrator is quiescent (in
+    `wait()`, not notified) and anything was ever revised, the ensemble is exactly what a history of passes
+    ENDING WITH A PASS OVER THE CURRENT INSIGHTS produces, followed only by the deaths that happened since
+    that pass looked at the tasks (`diedSince`) — the latest revision has been applied in full (one snapshot
+    per pass, every snapshot a real revision). Safety at quiescence; reaching it: `pass_progress`. -/
 theorem no_lost_wakeup (ls : List Orch.Label) (s : Orch.State)
     (hr : Orch.run (Orch.init true) ls = some s) (hq : Orch.Quiescent s) (hrev : s.revs ≠ []) :
-    ∃ pre, s.ens = runHist Ens.empty (pre ++ [s.ins]) ∧ ∀ i ∈ pre ++ [s.ins], i ∈ s.revs := by
+    ∃ pre, s.ens = runEvs Ens.empty (pre ++ [.pass s.ins] ++ s.diedSince.map Ev.die) ∧
+      ∀ i ∈ pre.flatMap Ev.insights ++ [s.ins], i ∈ s.revs := by
   have h := Orch.oinv_run Orch.oinv_init hr
   have hp := h.pcInv
   unfold Orch.Quiescent at hq
   simp only [Orch.PcInv, hq] at hp
-  obtain ⟨he, hor⟩ := hp
+  obtain ⟨he, _, hor⟩ := hp
   rcases hor with ⟨h0, _⟩ | ⟨pre, hpre⟩
   · exact absurd h0 hrev
-  · exact ⟨pre, by rw [he, hpre], by rw [← hpre]; exact h.histIn⟩
+  · refine ⟨pre, by rw [he, hpre], ?_⟩
+    intro i hi
+    apply h.histIn
+    rw [hpre]
+    simp only [List.flatMap_append, Orch.flatMap_insights_dies, List.append_nil, List.flatMap_cons,
+      List.flatMap_nil, Ev.insights]
+    exact hi
 
-open Orch in
-/-- **Exactly the served pairs are watched, with revisions arriving at any time** — the asynchronous
-    lift of `exactly_one_watch_partial` (same guard, stated over every revision ever made): at
-    quiescence the watcher keys are the served pairs of the CURRENT insights. -/
+/-- **Exactly the served pairs are watched, with revisions and deaths arriving at any time** — the
+    asynchronous lift of `exactly_one_watch_partial` (same guards, over every revision ever made; the
+    cluster-wide form admits the empty start-up revisions): at quiescence the watcher keys are the served
+    pairs of the CURRENT insights. Whether those watchers are running: `served_pairs_live_async`. -/
 theorem exactly_one_watch_async_partial (ls : List Orch.Label) (s : Orch.State)
     (hr : Orch.run (Orch.init true) ls = some s) (hq : Orch.Quiescent s) (hrev : s.revs ≠ [])
     (hscope : ∀ i ∈ s.revs, ∀ j ∈ s.revs, ∀ r ∈ i.watched, ∀ r' ∈ j.watched, r.name = r'.name → r.namespaced = r'.namespaced)
-    (hmode : (∀ i ∈ s.revs, i.namespaces = [none]) ∨
+    (hmode : ((∀ i ∈ s.revs, i.namespaces = [none] ∨ i.namespaces = []) ∧ s.ins.namespaces = [none]) ∨
       ((∀ i ∈ s.revs, none ∉ i.namespaces) ∧ (s.ins.namespaces ≠ [] ∨ ∀ r ∈ s.ins.watched, r.namespaced = true)))
     (k : Key) : k ∈ s.ens.keys ↔ Target s.ins k := by
   obtain ⟨pre, he, hin⟩ := no_lost_wakeup ls s hr hq hrev
-  rw [he, runHist_eq_runEvs, List.map_append, List.map_cons, List.map_nil]
-  apply exactly_one_watch_partial (pre.map Ev.pass) s.ins
-  · rw [flatMap_insights_map_pass]
-    intro i hi j hj
+  rw [he, Orch.runEvs_append', Orch.runEvs_dies, Orch.killMany_keys]
+  apply exactly_one_watch_partial pre s.ins
+  · intro i hi j hj
     exact hscope i (hin i hi) j (hin j hj)
-  · rw [flatMap_insights_map_pass]
-    rcases hmode with hc | ⟨hn, hg⟩
-    · exact Or.inl (fun i hi => hc i (hin i hi))
+  · rcases hmode with ⟨hc, hl⟩ | ⟨hn, hg⟩
+    · exact Or.inl ⟨fun i hi => hc i (hin i hi), hl⟩
     · exact Or.inr ⟨fun i hi => hn i (hin i hi), hg⟩
 
-/-- a run with two revisions squeezed in before the orchestrator gets the lock back -/
-example :
-    (Orch.run (Orch.init true)
-      [.revise ⟨[⟨"kex", true⟩], [some "a", some "c"]⟩, .acquire, .termDone, .spawnAll,
-       .revise ⟨[⟨"kex", true⟩], [some "c"]⟩, .revise ⟨[⟨"kex", true⟩], [some "b"]⟩, .acquire, .termDone, .spawnAll]).map
-      (fun s => (s.pc, s.ens.keys)) = some (.waiting, [("kex", some "b")]) := by decide
+/-- **At quiescence every served pair has a running watcher — unless a watcher died since the last pass.**
+    No death since the last pass looked at the tasks (`diedSince = []`): every served pair is live and no
+    dead task is in the ensemble. -/
+theorem served_pairs_live_async (ls : List Orch.Label) (s : Orch.State)
+    (hr : Orch.run (Orch.init true) ls = some s) (hq : Orch.Quiescent s) (hrev : s.revs ≠ [])
+    (hnd : s.diedSince = []) :
+    (∀ k, Target s.ins k → Live s.ens k) ∧ ∀ t ∈ s.ens.watchers, t.2 ∉ s.ens.dead := by
+  obtain ⟨pre, he, _⟩ := no_lost_wakeup ls s hr hq hrev
+  rw [hnd, List.map_nil, List.append_nil] at he
+  rw [he]
+  exact served_pairs_have_live_watcher pre s.ins
 
-/-- under the lock a revision in the middle of a pass is simply not enabled -/
+/-- **… and the guard is needed: a death while the orchestrator is idle stays unnoticed (C19-F6).** The
+    watcher of a served pair exits on its own (HTTP 404) while the orchestrator waits: the death takes no
+    lock and notifies nobody, the orchestrator stays quiescent, no segment of it is enabled, and the served
+    pair has no running watcher until some revision of the insights happens to come. -/
+theorem death_while_idle_witness :
+    ∃ (ls : List Orch.Label) (s : Orch.State),
+      Orch.run (Orch.init true) ls = some s ∧ Orch.Quiescent s ∧ Target s.ins ("kex", none) ∧
+      ¬ Live s.ens ("kex", none) ∧ ∀ l, l.isOrch = true → Orch.step s l = none := by
+  refine ⟨[.revise ⟨[⟨"kex", true⟩], [none]⟩, .acquire, .termDone, .spawnAll, .die ("kex", none)], _, rfl,
+    by unfold Orch.Quiescent; decide, ⟨⟨"kex", true⟩, by simp, none, by simp, rfl⟩, ?_, ?_⟩
+  · rintro ⟨i, hi, hd⟩
+    have hw : (i = 0) := by
+      have : (("kex", none), i) ∈ [((("kex" : String), (none : Option String)), 0)] := hi
+      simpa using this
+    subst hw
+    exact hd (by decide)
+  · intro l hl
+    cases l <;> simp [Orch.Label.isOrch] at hl <;> rfl
+
+/-- two revisions squeezed in before the orchestrator gets the lock back, the REAL cluster-wide start-up
+    (first revision without namespaces), and a watcher dying and being replaced by the next pass -/
 example :
     (Orch.run (Orch.init true)
-      [.revise ⟨[⟨"kex", true⟩], [some "a"]⟩, .acquire, .revise ⟨[⟨"kex", true⟩], [some "b"]⟩]).isNone = true := by decide
+      [.revise ⟨[⟨"kex", true⟩], []⟩, .revise ⟨[⟨"kex", true⟩], [none]⟩, .acquire, .termDone, .spawnAll,
+       .die ("kex", none), .revise ⟨[⟨"kex", true⟩], [none]⟩, .acquire, .termDone, .spawnAll]).map
+      (fun s => (decide (s.pc = .waiting), s.ens.watchers, s.ens.dead, s.diedSince.length, s.revs.length))
+      = some (true, [((("kex", none) : Key), 1)], [0], 0, 3) := by rfl
+
+/-- under the lock a revision in the middle of a pass is simply not enabled; a death is -/
+example :
+    (Orch.run (Orch.init true)
+      [.revise ⟨[⟨"kex", true⟩], [some "a"]⟩, .acquire, .revise ⟨[⟨"kex", true⟩], [some "b"]⟩]).isNone = true ∧
+    (Orch.run (Orch.init true)
+      [.revise ⟨[⟨"kex", true⟩], [some "a"]⟩, .acquire, .die ("kex", some "a")]).isNone = true ∧
+    (Orch.run (Orch.init true)
+      [.revise ⟨[⟨"kex", true⟩], [some "a"]⟩, .acquire, .termDone, .spawnAll, .revise ⟨[⟨"kex", true⟩], [some "a"]⟩,
+       .acquire, .die ("kex", some "a"), .termDone, .spawnAll]).map (fun s => (s.ens.watchers, s.ens.dead, s.diedSince.length))
+      = some ([(("kex", some "a"), 0)], [0], 1) := by decide
 
 /-- **Releasing the lock before the pass loses wake-ups.** In the variant whose pass runs outside
     `async with insights.revised` (`lockedPass = false`): ns a and c served; a is deleted → a pass starts
